@@ -30,7 +30,7 @@ NPROC = int(os.environ.get("VERIF_NPROC", os.cpu_count() or 4))
 TECH = "deterministic simulation with fault injection: "
 PROPS = {
     "C01": dict(engine="wire", engines=["wire", "woven"], quick=40, thorough=600, level="exploration", design="DESIGN.md section 4, C01",
-                text="Seeded search over write-size sequences, read sizes, chunkings (1 byte .. whole bursts, handshake+payload coalesced), latencies, IAT modes, table bias, bridge seeds and task interleavings of a real obfs4 client and server; every Read is compared with a position-coded stream model and completeness is demanded after 10 quiet virtual minutes. Sampling, not proof.",
+                text="Seeded search over write-size sequences, read sizes, chunkings (1 byte .. whole bursts, handshake+payload coalesced), latencies, IAT modes, table bias, bridge seeds and task interleavings of a real obfs4 client and server; in one run of four a second connection with its own content is served by the same factories at the same time; every Read is compared with a position-coded stream model and completeness is demanded after 10 quiet virtual minutes. Sampling, not proof.",
                 note="Trusted: the simulator (sim/), go1.26.8 testing/synctest, the stream model. Real code: all of transports/obfs4 and what it imports. TCP, clock, entropy and goroutine scheduling at conn operations are simulated.",
                 technique=TECH + "seeded schedule/chunking search, stream-prefix model oracle, quiescence liveness check"),
     "C02": dict(engine="wire", quick=40, thorough=600, level="exploration", design="DESIGN.md section 4, C02",
